@@ -5,7 +5,7 @@ def experienced(pid, tier, seed):
     """tcp/udp fault scripts: the hook reconstructs the outcome script the producer actually experienced
     (from its log lines and the sink); the Lean model is run on that script and must predict the observed
     MQErrorCount and per-connection delivery."""
-    n = 60 if tier == "quick" else 3000
+    n = 60 if tier == "quick" else 10000
     kind = "producer"
     _C.RUNNERS[kind] = SPEC["corr"][0]["runner"]
     cases = [l for l in _C.gen_cases(kind, seed * 1000 + 977, n * 3) if not l.startswith("producer unix") and not l.endswith(" -")][:n]
@@ -53,7 +53,7 @@ def experienced(pid, tier, seed):
 
 
 SPEC = {
-    "corr": [{"kind": "producer", "quick": 200, "thorough": 16000,
+    "corr": [{"kind": "producer", "quick": 200, "thorough": 50000,
               "runner": {"pkg": "./producer", "test": "TestVerifRawSocket", "race": False, "timeout": "30m"}}],
     "extra": [experienced],
     "rule": "fault scripts (sink closes / resets / goes down / comes back at message indices) x protocols unix, tcp, udp x "
